@@ -43,6 +43,8 @@ import "go.lstv.dev/util/internal"
 //@   ensures [C16.inplace] sameOrFresh(result, buf)
 //@   assigns buf[len(buf):]
 //@   loop 0 unroll 20
+//@   split m: fmod(nDigits(shVal(uint64(s))), 3) == 0
+//@   split m: fmod(nDigits(shVal(uint64(s))), 3) == 1
 
 //@ func appendSeparator
 //@   inline
